@@ -266,5 +266,87 @@ def run_unit(u, rec):
             rec.count(states=len(rich), transitions=len(bands), traces=1)
             rec.close(float(np.max(np.abs(s - tot[nm]) / np.maximum(1.0, tot[nm]))), 1e4 * EPS * N**D, f"C16/band_additive/{nm}",
                       "a partition of [0, N//2] into consecutive bands does not sum to the unrestricted metric", D=D, N=N, L=L, bands=bands)
+    norms_section(u, rec, M, D, N, L, sup1, sup2, tern, KI)
     rec.sample({"D": D, "N": N, "L": L, "pairs": len(pairs), "bands": (half + 1) * (half + 2) // 2, "partitions": 2**half,
                 "example_pair": [list(basis[pairs[len(pairs) // 2][0]][0]), list(basis[pairs[len(pairs) // 2][1]][0])]})
+
+
+# exponent / mode / band / derivative alphabets of the general norm functions (full product, every combination is one transition)
+SP_P = (1.0, 2.0, 3.0, 0.5)
+SP_Q = (None, 1.0, 0.5, 2.0)
+FO_P = (1.0, 2.0, 3.0)
+FO_Q = (None, 1.0, 0.5)
+FO_S = (None, 1, 2, 3)
+
+
+def norms_section(u, rec, M, D, N, L, sup1, sup2, tern, KI):
+    """spatial_aggregator / spatial_norm / fourier_aggregator / fourier_norm with every (p, q, mode, band, derivative order) combination against the
+    documented formulas: spatial ((L/N)^D sum |u_i|^p)^q ; Fourier ((L/N)^D sum_{k in band, full spectrum} |(i kappa_d)^s u_hat_k|^p / N^D)^q summed over d.
+    p = 2 reproduces the continuous L2 quantity (Parseval), p = 1 the convention fourier_MAE documents."""
+    import jax.numpy as jnp
+
+    half = N // 2
+    ax = tuple(range(-D, 0))
+    P = np.stack([sup1, 0.6 * tern + 0.2, sup2 + 0.3])
+    R = np.stack([sup2 * 0.5 + 0.1, np.roll(tern, 1, axis=-1) * 0.5 - 0.3, 0.4 * sup1 - 0.2])
+    Pj, Rj = jnp.asarray(P), jnp.asarray(R)
+    tol = 1e4 * EPS * N**D
+
+    def cmp(sig, got, want, **kw):
+        got, want = float(got), float(want)
+        if not np.isfinite(want):
+            return
+        rec.count(states=1, transitions=1, traces=1)
+        rec.close(abs(got - want) / max(1.0, abs(want)) if np.isfinite(got) else np.inf, tol, sig, "general norm / aggregator differs from its documented formula",
+                  D=D, N=N, L=L, got=got, want=want, **kw)
+
+    def sp_agg(f, p, q):
+        q = 1.0 / p if q is None else q
+        return ((L / N) ** D * np.sum(np.abs(f) ** p, axis=ax)) ** q
+
+    for p, q in itertools.product(SP_P, SP_Q):
+        rec.dim("sp_pq", f"{p}/{q}")
+        cmp("C16/norms/spatial_aggregator", M.spatial_aggregator(Pj[0], domain_extent=L, inner_exponent=p, outer_exponent=q), sp_agg(P[0], p, q), p=p, q=q)
+        cmp("C16/norms/spatial_aggregator_explicit_dims", M.spatial_aggregator(Pj[1], num_spatial_dims=D, num_points=N, domain_extent=L, inner_exponent=p, outer_exponent=q),
+            sp_agg(P[1], p, q), p=p, q=q)
+        d, a, b = sp_agg(P - R, p, q), sp_agg(P, p, q), sp_agg(R, p, q)
+        with np.errstate(divide="ignore", invalid="ignore"):
+            wants = {"absolute": np.sum(d), "normalized": np.sum(d / b), "symmetric": np.sum(2 * d / (a + b))}
+        for mode, want in wants.items():
+            cmp(f"C16/norms/spatial_norm/{mode}", M.spatial_norm(Pj, Rj, mode=mode, domain_extent=L, inner_exponent=p, outer_exponent=q), want, p=p, q=q, mode=mode)
+        cmp("C16/norms/spatial_norm/no_ref", M.spatial_norm(Pj, domain_extent=L, inner_exponent=p, outer_exponent=q), np.sum(a), p=p, q=q)
+
+    kfull = np.fft.fftfreq(N, 1.0 / N) * (2 * np.pi / L)
+    kap = [kfull.reshape([N if a_ == d_ else 1 for a_ in range(D)]) for d_ in range(D)]
+
+    def fo_agg(f, p, q, low, high, s):
+        q = 1.0 / p if q is None else q
+        uh = np.fft.fftn(f, axes=ax)
+        uh = np.where(np.abs(uh) < 1e-5, 0.0, uh)
+        lo = 0 if low is None else low
+        hi = half + 1 if high is None else high
+        band = (KI >= lo) & (KI <= hi)
+        uh = np.where(band, uh, 0.0)
+        comps = [uh] if s is None else [uh * (1j * kap[d_]) ** s for d_ in range(D)]
+        return sum(((L / N) ** D * np.sum(np.abs(c) ** p, axis=ax) / N**D) ** q for c in comps)
+
+    bands = [(None, None), (1, None), (None, 1), (0, 0)] + ([(1, 2), (2, half)] if half >= 2 else [])
+    for p, q, s, (low, high) in itertools.product(FO_P, FO_Q, FO_S, bands):
+        rec.dim("fo_pqs", f"{p}/{q}/{s}")
+        kw = dict(domain_extent=L, inner_exponent=p, outer_exponent=q, low=low, high=high, derivative_order=s)
+        info = dict(p=p, q=q, s=s, low=low, high=high)
+        cmp("C16/norms/fourier_aggregator", M.fourier_aggregator(Pj[0], **kw), fo_agg(P[0], p, q, low, high, s), **info)
+        d, b = fo_agg(P - R, p, q, low, high, s), fo_agg(R, p, q, low, high, s)
+        cmp("C16/norms/fourier_norm/absolute", M.fourier_norm(Pj, Rj, mode="absolute", **kw), np.sum(d), **info)
+        if np.all(b > 1e-9):
+            cmp("C16/norms/fourier_norm/normalized", M.fourier_norm(Pj, Rj, mode="normalized", **kw), np.sum(d / b), **info)
+        if (low, high) == (None, None):
+            cmp("C16/norms/fourier_norm/no_ref", M.fourier_norm(Pj, **kw), np.sum(fo_agg(P, p, q, low, high, s)), **info)
+            if p == 2.0 and s is None:
+                cmp("C16/norms/parseval", M.fourier_norm(Pj, Rj, **kw), M.spatial_norm(Pj, Rj, domain_extent=L, inner_exponent=p, outer_exponent=q), **info)
+    cmp("C16/norms/fourier_aggregator_explicit_dims", M.fourier_aggregator(Pj[2], num_spatial_dims=D, num_points=N, domain_extent=L, inner_exponent=2.0, derivative_order=1),
+        fo_agg(P[2], 2.0, None, None, None, 1))
+    # the normalised L1 members of the Fourier family (values; the L2 members are bound to the spatial ones by Parseval above)
+    for nm, pre in (("fourier_nMAE", "n"),):
+        d, b = fo_agg(P - R, 1.0, 1.0, None, None, None), fo_agg(R, 1.0, 1.0, None, None, None)
+        cmp(f"C16/value/{nm}", getattr(M, nm)(Pj, Rj, domain_extent=L), np.sum(d / b))
